@@ -188,6 +188,7 @@ ChooseIndex(write, t) ==
                 \* result shape: rank 1 for a rank-1 parent, otherwise a same-rank shape <<1,..,1,n>>
                 rsh == [a \in 1..Len(shp) |-> IF a = Len(shp) THEN n ELSE 1]
             IN [e |-> IF write THEN "IndexWrite" ELSE "IndexRead", buf |-> h, shape |-> shp, form |-> "flat", sel |-> sel, rshape |-> rsh,
+                cp |-> IF write THEN 0 ELSE Pick(0..1),          \* reads: through a const reference to the parent (separate view class)
                 ity |-> ity, aop |-> aop, na |-> na, rhs |-> IdxRhs(IF na = 1 THEN h ELSE Pick(SameRank(h)), n, na = 1, sel, t)]
        ELSE LET r0 == IF form \in {"pair", "it_int", "it_fseq"} THEN [k |-> "it", idx |-> DrawIdx(shp[1], Pick(1..shp[1]), write, t)]
                       ELSE IF form = "int_it" THEN [k |-> "int", i |-> Pick(0..(shp[1] - 1))]
@@ -200,6 +201,7 @@ ChooseIndex(write, t) ==
                 n == Len(sel)
                 rsh == <<Len(PerAxisIdx(r0, shp[1])), Len(PerAxisIdx(r1, shp[2]))>>
             IN [e |-> IF write THEN "IndexWrite" ELSE "IndexRead", buf |-> h, shape |-> shp, form |-> form, axes |-> axes, sel |-> sel, rshape |-> rsh,
+                cp |-> IF write THEN 0 ELSE Pick(0..1),
                 ity |-> ity, aop |-> aop, na |-> na, rhs |-> IdxRhs(IF na = 1 THEN h ELSE Pick(SameRank(h)), n, na = 1, sel, t)]
 ChooseMask(t) ==
     LET h    == Pick(Names)
